@@ -120,7 +120,7 @@ func (g *genState) ballot(node, pub int, hh, rr int64, kind, v int, ex []int, fu
 	}
 	flavour := 0
 	if g.r.Chance(1, 6) {
-		flavour = g.r.Range(1, 6)
+		flavour = g.r.Range(1, 8)
 	}
 	if g.forceFlavour > 0 {
 		flavour = g.forceFlavour
@@ -137,6 +137,8 @@ func (g *genState) ballot(node, pub int, hh, rr int64, kind, v int, ex []int, fu
 		switch {
 		case rr == 0:
 			bl.vp = g.vp(hh-1, 0, 1, true, 0, nil, vkPlain, flavour)
+		case flavour == 7 || flavour == 8:
+			bl.vp = g.stuckVP(hh, rr-1, g.r.Intn(2), flavour == 8)
 		case g.r.Bool():
 			bl.vp = g.vp(hh, rr-1, 0, false, 0, nil, vkPlain, flavour)
 		default:
@@ -324,6 +326,15 @@ func RunForced(r *vh.Rand, res *vh.Result, mode string, maxSteps int) *Hist {
 		}
 		g.scBackScenario()
 		res.Dist("forced_scback_scenario")
+	}
+	if n >= 3 && r.Chance(1, 6) {
+		for _, x := range []int64{w.H - 2, w.H - 1, w.H} {
+			if !h.known[x] {
+				h.doLearn(x)
+			}
+		}
+		g.stuckScenario(r.Chance(1, 3))
+		res.Dist("forced_stuck_scenario")
 	}
 	g.newPhase()
 	nsteps := len(h.steps) + r.Range(maxSteps/3, maxSteps)
@@ -586,6 +597,67 @@ func (g *genState) scBackScenario() {
 	for i := 0; i < w.n-1; i++ {
 		bl := g.ballot(i, i, w.H, 0, kSC, 0, []int{e}, true)
 		if bl == nil || !bl.valid {
+			continue
+		}
+		h.doVote(bl)
+		g.runAllPending(false)
+	}
+	g.forceFlavour = 0
+}
+
+// stuckVP: an embedded stuck voteproof of (hh, rr) with a genuine expel (the last member, signed by every member) and
+// exactly suffrage-size-minus-expels sign facts; good: the sign facts are from the remaining members; otherwise from an
+// outsider and from member addresses under foreign keys.
+func (g *genState) stuckVP(hh, rr int64, stage int, good bool) int {
+	w := g.w
+	key := fmt.Sprintf("stuck/%d/%d/%d/%v", hh, rr, stage, good)
+	if i, ok := g.vpcache[key]; ok {
+		return i
+	}
+	m := g.members(hh - 1)
+	if len(m) < 2 {
+		g.vpcache[key] = -1
+		return -1
+	}
+	target := m[len(m)-1]
+	var signers [][2]int
+	for _, j := range m {
+		signers = append(signers, [2]int{j, j})
+	}
+	e := w.Expel(target, hh-1, hh+1, signers)
+	fk := kInit
+	if stage == 1 {
+		fk = kAccept
+	}
+	var sfs []aSF
+	for i, j := range m[:len(m)-1] {
+		node, pub := j, j
+		if !good {
+			pub = 100 + j // member address, foreign key
+			if i == 0 {
+				node, pub = w.n, w.n // an outsider
+			}
+		}
+		sfs = append(sfs, w.SignFact(node, pub, w.Fact(hh, rr, fk, 60+i, nil)))
+	}
+	i := w.Voteproof(hh, rr, stage, 1000, -1, sfs, []int{e}, vkStuck)
+	g.vpcache[key] = i
+	return i
+}
+
+// stuckScenario: next-round INIT ballots of members embed a stuck voteproof of the previous round whose sign facts are
+// not from the suffrage (or, good, are): the box must not hand it on (must hand it on).
+func (g *genState) stuckScenario(good bool) {
+	h, w := g.h, g.w
+	h.doSetLast(lastP{h: w.H - 1, r: 0, stage: 1, maj: true})
+	g.forceFlavour = 7
+	if good {
+		g.forceFlavour = 8
+	}
+	for i := 0; i < 2; i++ {
+		bl := g.ballot(i, i, w.H, 1, kInit, 0, nil, true)
+		if bl == nil || !bl.valid {
+			g.h.res.Dist("stuck_ballot_invalid")
 			continue
 		}
 		h.doVote(bl)
